@@ -79,6 +79,17 @@ class Compiler:
 
     @_compile.register
     def _select(self, node: ast.Select):
+        # Compiling a SELECT statement changes the current table.
+        # Restore it afterwards as this may be a subquery and the
+        # rest of the enclosing query needs to be compiled against
+        # its own table.
+        table = self.table
+        try:
+            return self._compile_select(node)
+        finally:
+            self.table = table
+
+    def _compile_select(self, node):
 
         # Compile the FROM clause.
         c_from_expr = self._compile_from(node.from_clause)
